@@ -331,7 +331,11 @@ def gen_hist(rng):
             ops.append(["n", rng.choice([0, 1, 2, 3, 5])])
     # the same watcher object spawns every generation: its cmd / args templates carry $(circus.wid) — as a string or
     # as a list — and every worker must get its *own* id in them (the templates are not consumed by the first spawn)
-    style = rng.choice(["list", "list", "str", "cmd"])
+    style = rng.choice(["list", "list", "str", "cmd", "envcmd", "envcmd"])
+    if style == "envcmd":
+        # the environment the references are expanded from changes between generations (`set <w> env …`)
+        for _ in range(rng.randint(1, 3)):
+            ops.insert(rng.randint(0, len(ops)), ["e", rng.choice(["green", "red", "blue"])])
     return {"kind": "hist", "np": np_, "ops": ops, "argstyle": style}
 
 
@@ -342,11 +346,15 @@ def _hist_templates(style):
         return "prog --id $(circus.wid)", "--w $(circus.wid) ((circus.wid))x 'lit eral'"
     if style == "cmd":
         return "prog --id $(circus.wid) --w ((CIRCUS.WID))", None
+    if style == "envcmd":
+        return "prog --id $(circus.wid) --mode $(circus.env.mode)", ["--m2", "((circus.env.mode))"]
     return "x", None
 
 
-def _hist_expected_argv(style, wid):
+def _hist_expected_argv(style, wid, mode="blue"):
     w = str(wid)
+    if style == "envcmd":
+        return ["prog", "--id", w, "--mode", mode, "--m2", mode]
     if style in ("list", "str"):
         return ["prog", "--id", w, "--w", w, w + "x", "lit eral"]
     if style == "cmd":
@@ -554,9 +562,15 @@ def _impl_spawn(case):
 def _impl_hist(case):
     with _Patched({}):
         cmd, args = _hist_templates(case.get("argstyle"))
-        w = _mk_watcher({"np": case["np"], "cmd": cmd, "args": args})
+        mode = "blue"
+        w = _mk_watcher({"np": case["np"], "cmd": cmd, "args": args,
+                         "env": {"mode": mode} if case.get("argstyle") == "envcmd" else None})
         answers = []
         for op in case["ops"]:
+            if op[0] == "e":
+                mode = op[1]
+                w.set_opt("env", {"mode": mode})
+                continue
             if op[0] == "s":
                 before = set(w.processes)
                 live_before = [p.wid for p in w.processes.values()]
@@ -568,7 +582,7 @@ def _impl_hist(case):
                     continue
                 new = [p for pid, p in w.processes.items() if pid not in before]
                 argv = list(_Recorder.calls[-1][0]) if len(_Recorder.calls) > ncalls else None
-                answers.append({"wid": new[0].wid, "live_before": live_before, "argv": argv})
+                answers.append({"wid": new[0].wid, "live_before": live_before, "argv": argv, "mode": mode})
             elif op[0] == "d":
                 pids = list(w.processes)
                 if op[1] < len(pids):
@@ -695,8 +709,9 @@ def model_line(case):
                          _enc_bool(case["pipe_err"]), "~" if case["executable"] is None else enc_cps(case["executable"]),
                          _enc_table(extra), str(len(case["used"]))] + [str(u) for u in case["used"]])
     if k == "hist":
-        return " ".join(["argv hist", str(case["np"]), str(len(case["ops"]))] +
-                        [" ".join(str(x) for x in op) for op in case["ops"]])
+        mops = [op for op in case["ops"] if op[0] != "e"]        # the wid model knows nothing of the environment
+        return " ".join(["argv hist", str(case["np"]), str(len(mops))] +
+                        [" ".join(str(x) for x in op) for op in mops])
     raise ValueError(k)
 
 
@@ -899,7 +914,7 @@ def oracle(case, obs):
                 fails.append(_fail("wid-not-unique", "wid %r handed out while %r are live" % (w, live)))
             if not live and w != 1:
                 fails.append(_fail("wid-start", "first wid is %r" % w))
-            exp = _hist_expected_argv(case.get("argstyle"), w)
+            exp = _hist_expected_argv(case.get("argstyle"), w, a.get("mode", "blue"))
             if exp is not None and a.get("argv") is not None and a["argv"] != exp:
                 fails.append(_fail("argv-not-this-workers", "worker with wid %r of a later generation was started with %r, "
                                                             "its templates give %r" % (w, a["argv"], exp)))
